@@ -196,6 +196,13 @@ func c17(r *rep.Run) {
 					variant{c17List(j.a, j.strs, pf, pb, 0), c17List(j.b, j.strs, 0, 0, 5000), sprintf("total %d, left longer, filler %d/%d", tot, pf, pb)},
 					variant{c17List(j.a, j.strs, 0, 0, 0), c17List(j.b, j.strs, pf, pb, 5000), sprintf("total %d, right longer, filler %d/%d", tot, pf, pb)})
 			}
+			// both lists padded in FRONT by the same amount with different filler: common elements sit at the same index
+			if pad >= 2 {
+				vs = append(vs, variant{c17List(j.a, j.strs, pad/2, 0, 0), c17List(j.b, j.strs, pad/2, 0, 5000), sprintf("total %d, index-aligned cores", tot)})
+				// a list against itself
+				self := c17List(j.a, j.strs, pad/2, pad-pad/2, 0)
+				vs = append(vs, variant{self, self, sprintf("total %d, a list against itself", 2*lenOf(self))})
+			}
 			// both padded (balanced)
 			vs = append(vs, variant{c17List(j.a, j.strs, pad/2, 0, 0), c17List(j.b, j.strs, 0, pad-pad/2, 5000), sprintf("total %d, both padded", tot)})
 		}
